@@ -51,10 +51,13 @@ ApplyPv(s, e) ==
                     TailWhere(D, LAMBDA w : (w - e.s8) * it.ginv >= -(Uof(e) * (M + 2)))>>]]
 
 \* w/U >= tk/ginv + c/ginv  <=>  w * ginv >= U (tk + c)
+\* events with a field `sat` use the saturating distribution (numerators capped at e.sat; p = pn / (pc den) with pn < cap)
+IsSat(e) == "sat" \in DOMAIN e
 ScIterOK(D, e, it, M) ==
   LET d == M + 2
       U == Uof(e)
-      above == TailWhere(D, LAMBDA w : w * it.ginv >= U * (it.tk + d))
+      TW(P(_)) == IF IsSat(e) THEN TailWhereSat(D, P, e.sat) ELSE TailWhere(D, P)
+      above == TW(LAMBDA w : w * it.ginv >= U * (it.tk + d))
       \* attainable scores strictly below t - d
       below == {w \in Attainable(D) : w * it.ginv < U * (it.tk - d)}
       \* p = pn / (pc den) for the sweep over attainable tails and midpoints (pc in {1, 2}), pn / pd otherwise
@@ -62,11 +65,11 @@ ScIterOK(D, e, it, M) ==
       ge(x) == IF e.pc > 0 THEN x * e.pc >= e.pn ELSE x * e.pd >= e.pn * e.den     \* x / den >= p
   IN /\ le(above)
      /\ below # {} =>
-          LET u == SetMax(below) IN ge(TailWhere(D, LAMBDA w : (w - u) * it.ginv >= -(U * d)))
+          LET u == SetMax(below) IN ge(TW(LAMBDA w : (w - u) * it.ginv >= -(U * d)))
 
 ApplySc(s, e) ==
   LET M == Len(e.pssm)
-      D == ConvDist(Double(e.pssm), e.bn, e.K)
+      D == IF IsSat(e) THEN ConvDistSat(Double(e.pssm), e.bn, e.K, e.sat) ELSE ConvDist(Double(e.pssm), e.bn, e.K)
       bad == {q \in 1..Len(e.iters) : ~ScIterOK(D, e, e.iters[q], M)}
       progress == Len(e.iters) >= 1 /\ \A q \in 1..Len(e.iters) : e.iters[q].k = q /\ e.iters[q].offgrid = 0
   IN [ok |-> progress /\ bad = {}, st |-> s,
